@@ -301,10 +301,53 @@ def explore(R: Recorder, case: dict[str, Any], rng: random.Random, cap: int) -> 
         R.count("programs_fully_enumerated")
 
 
+def factories(R: Recorder) -> None:
+    """ctx.spawn of a plain callable that returns a coroutine (a factory, a partial, a lambda): it is called exactly once, the task it
+    makes belongs to the scope - also when the factory itself fails with a LookupError-family exception the first time"""
+    from haiway import ctx
+
+    for exc_type in (None, KeyError, IndexError, LookupError, ValueError):
+        log: dict[str, Any] = {"calls": 0, "started": 0, "finished": 0}
+
+        async def worker() -> None:
+            log["started"] += 1
+            await asyncio.sleep(0)
+            await asyncio.sleep(0)
+            log["finished"] += 1
+
+        def factory(exc_type: Any = exc_type, log: dict[str, Any] = log) -> Any:
+            log["calls"] += 1
+            if exc_type is not None and log["calls"] == 1:
+                raise exc_type("factory failed")
+            return worker()
+
+        async def main(loop: Any, log: dict[str, Any] = log, factory: Any = factory) -> None:
+            async with ctx.scope("factories"):
+                try:
+                    ctx.spawn(factory)
+                    log["spawn"] = "returned"
+                except BaseException as exc:  # noqa: BLE001
+                    log["spawn"] = type(exc).__name__
+            log["finished_at_exit"] = log["finished"]
+            for _ in range(5):
+                await asyncio.sleep(0)
+
+        status, value, _ = run_virtual(main, max_iterations=2000)
+        case = {"factory": exc_type.__name__ if exc_type else None}
+        R.case(case, nontrivial=exc_type is not None)
+        if exc_type is None:
+            ok = status == "ok" and log["calls"] == 1 and log.get("spawn") == "returned" and log["finished_at_exit"] == 1
+        else:
+            ok = status == "ok" and log["calls"] == 1 and log.get("spawn") == exc_type.__name__ and log["started"] == 0
+        R.monitor("spawn-factory", ok, where={"kind": "factory-called-again-or-task-detached", "factory_raises": case["factory"]},
+                  detail=f"ctx.spawn(factory) where the factory {'raises ' + exc_type.__name__ + ' on its first call' if exc_type else 'returns a coroutine'}: status {status}, {log}", case=case)
+
+
 def run(R: Recorder, tier: str, seed: int, shard: int, nshards: int) -> None:
     R.flags["exhaustive_core"] = "all programs with <= 2 spawned tasks (9 scripts x 3 spawn sites x 4 body outcomes) x all gate-release orders (capped)"
     if shard == 0:
         detached(R)
+        factories(R)
     rng_cases = random.Random(f"C06/{seed}")
     rng = random.Random(f"C06/{seed}/{shard}")
     for i, case in enumerate(cases(tier, rng_cases)):
@@ -315,6 +358,9 @@ def run(R: Recorder, tier: str, seed: int, shard: int, nshards: int) -> None:
 def replay(R: Recorder, rec: dict[str, Any]) -> None:
     if "detached" in rec:
         detached(R)
+        return
+    if "factory" in rec:
+        factories(R)
         return
     ch = Chooser(rec["choices"], "first")
     W, status, value, sched = run_once(rec["case"], ch)
